@@ -7,7 +7,9 @@ require github.com/kevin-hanselman/dud v0.0.0
 require (
 	github.com/c2h5oh/datasize v0.0.0-20231215233829-aa82cc1e6500 // indirect
 	github.com/klauspost/cpuid/v2 v2.2.8 // indirect
+	github.com/pkg/errors v0.9.1 // indirect
 	github.com/zeebo/blake3 v0.2.4 // indirect
+	gopkg.in/yaml.v2 v2.4.0 // indirect
 )
 
 replace github.com/kevin-hanselman/dud => /repo
